@@ -195,8 +195,8 @@ impl Check for C07 {
     }
     fn runs(&self, tier: Tier) -> u64 {
         match tier {
-            Tier::Quick => 60_000,
-            Tier::Thorough => 3_000_000,
+            Tier::Quick => 800_000,
+            Tier::Thorough => 24_000_000,
         }
     }
 
